@@ -537,3 +537,7 @@ def check_tables(rep, prog):
     af = spec_table("actionFlagsValues")
     rep.check(all(k and (k & (k - 1)) == 0 for k in af), "C02.R4.tables", "action flag keys are single bits",
               "spec", "actionFlagsValues", "spec error")
+    # a field that is encoded with length 0 (an empty symptom id / partition name) is still a field: the decoder may not trip
+    # over the stream's refusal of zero-length reads and lose the whole section (rule shared with C01)
+    from .c01 import check_full_decode_accepts
+    check_full_decode_accepts(rep, prog, "C02.R5.no-value-dropped")
